@@ -100,12 +100,12 @@ func fillShape(shape, path string, c int64) string {
 }
 
 type depCell struct {
-	loc               *depLoc
-	wp, rp            string
-	form, shape, dir  string
-	acts              []string
-	cond              string
-	third             bool
+	loc              *depLoc
+	wp, rp           string
+	form, shape, dir string
+	acts             []string
+	cond             string
+	third            bool
 }
 
 // depMatrix generates the dependency-matrix cases. nShapes limits the read shapes (quick tier).
